@@ -44,7 +44,7 @@ class SPath(SOpaque):
             return SFunc("model", mkdir)
         if name == "write_text":
             def write(I2, a, k):
-                self.trace.append(("write", self.parts))
+                self.trace.append(("write", self.parts, a[0] if a else k.get("data")))
                 return 0
             return SFunc("model", write)
         # read-only queries of the file system: whatever the code asks, the answer is unconstrained (an existing project
@@ -83,8 +83,17 @@ def build_contract(meta_name):
         meta = MetaType[meta_name]
         package_dir = project_dir if meta is MetaType.NONE else SPath(("project_dir", "package"), trace, world)
         overwrite = SBool(z3.Const("overwrite", z3.BoolSort()))
-        tmpl = SOpaque("template", attrs={"render": SFunc("model", lambda I2, a, k: SStr(I2.fresh("rendered", z3.StringSort())))})
-        env = SOpaque("env", attrs={"get_template": SFunc("model", lambda I2, a, k: tmpl)})
+        rendered = []              # (text value, template name, render kwargs)
+
+        def get_template(I2, a, k):
+            tname = a[0] if a else k.get("name")
+
+            def render(I3, a3, k3):
+                text = SStr(I3.fresh("rendered", z3.StringSort()))
+                rendered.append((text, tname, dict(k3)))
+                return text
+            return SOpaque(f"template {tname}", attrs={"render": SFunc("model", render)})
+        env = SOpaque("env", attrs={"get_template": SFunc("model", get_template)})
 
         def mk_model(i):
             return SOpaque(f"model{i}", attrs={"class_info": SOpaque(f"ci{i}", attrs={
@@ -98,11 +107,25 @@ def build_contract(meta_name):
         nm = 0 if I.branch_free() else 2
         models = SList([mk_model(i) for i in range(nm)])
         enums = SList([mk_enum(0)] if I.branch_free() else [])
-        ep = SOpaque("endpoint", attrs={"name": SStr(z3.Const("endpoint_name", z3.StringSort()))})
-        coll = SOpaque("collection", attrs={"endpoints": SList([ep]), "parse_errors": SList()})
-        tag = SStr(z3.Const("tag", z3.StringSort()))
+        # two tags; the second holds an operation of its own (its name may or may not coincide with a name of the first tag: module
+        # names are unique within a tag only) and possibly one operation of the first tag again (generate_all_tags)
+        mk_ep = lambda j: SOpaque(f"endpoint{j}", attrs={"name": SStr(z3.Const(f"endpoint_name_{j}", z3.StringSort()))})  # noqa: E731
+        A, C, B = mk_ep(0), mk_ep(1), mk_ep(2)
+        tag, tag2, tag3 = (SStr(z3.Const(n, z3.StringSort())) for n in ("tag", "tag2", "tag3"))
+        I.assume(z3.Distinct(tag.t, tag2.t, tag3.t))
+        a_twice = bool(I.branch_free())          # A under tag and tag2 (generate_all_tags)
+        b_twice = bool(I.branch_free())          # B under tag2 and tag3
+        A.attrs["tags"] = SList([tag, tag2] if a_twice else [tag])
+        C.attrs["tags"] = SList([tag])
+        B.attrs["tags"] = SList([tag2, tag3] if b_twice else [tag2])
+        coll = SOpaque("collection", attrs={"endpoints": SList([A, C]), "parse_errors": SList()})
+        coll2 = SOpaque("collection2", attrs={"endpoints": SList([B] + ([A] if a_twice else [])), "parse_errors": SList()})
+        coll3 = SOpaque("collection3", attrs={"endpoints": SList([B]), "parse_errors": SList()})
+        pairs = [(tag, coll), (tag2, coll2)] + ([(tag3, coll3)] if b_twice else [])
         from pyvc.absdata import LazyMap
-        by_tag = LazyMap("endpoint_collections_by_tag", None, [(tag, coll)], complete=True)
+        by_tag = LazyMap("endpoint_collections_by_tag", None, list(pairs), complete=True)
+        # a dict the function makes for itself may be keyed by symbolic strings
+        I.empty_dict_hook = lambda: LazyMap("a dict made by the function", None, [], complete=True)
         openapi = SOpaque("openapi", attrs={"models": models, "enums": enums, "endpoint_collections_by_tag": by_tag, "errors": SList()})
         config = SOpaque("config", attrs={"overwrite": overwrite, "meta_type": meta, "post_hooks": SList(), "file_encoding": "utf-8",
                                           "field_prefix": SStr(z3.Const("field_prefix", z3.StringSort()))})
@@ -117,7 +140,9 @@ def build_contract(meta_name):
         I.lib[builtins.print] = lambda I2, a, k: None
         I.contracts["openapi_python_client:import_string_from_class"] = lambda I2, a, k: SStr(I2.fresh("import", z3.StringSort()))
         return SFunc("pyfunc", opc.Project.build), [proj], {}, {"trace": trace, "world": world, "overwrite": overwrite,
-                                                                "package": package_dir.parts, "meta": meta}
+                                                                "package": package_dir.parts, "meta": meta, "rendered": rendered,
+                                                                "colls": pairs, "models": models, "enums": enums,
+                                                                "config": config}
 
     def refuse(ctx):
         i = ctx.inputs
@@ -140,7 +165,7 @@ def build_contract(meta_name):
         if any(t[0] == "mkdir-failed" for t in tr) and len(tr) == 1:
             return True
         seen_rm = set()
-        for kind, parts in tr:
+        for kind, parts, *_ in tr:
             if kind == "rmtree":
                 if parts not in (pkg + ("models",), pkg + ("api",)):
                     return False
@@ -175,7 +200,60 @@ def build_contract(meta_name):
                 return isinstance(rest[1], SStr) and (rest[2] == "__init__.py" or isinstance(rest[2], SStr))
         return False
 
+    def own_rendering(ctx):
+        """every module file holds the rendering of ITS OWN record: api/<tag>/<module>.py the endpoint of that tag with that module
+        name, models/<module>.py the model / enum with that module name"""
+        from openapi_python_client import utils
+        I, i = ctx.I, ctx.inputs
+        pkg = i["package"]
+        tr = [t for t in i["trace"] if t[0] == "write"]
+        if any(t[0] == "mkdir-failed" for t in i["trace"]) and len(i["trace"]) == 1:
+            return True
+        by_text = {id(text): (tname, kw) for text, tname, kw in i["rendered"]}
+        prefix = i["config"].attrs["field_prefix"]
+
+        def same(a, b):
+            e = I.py_eq(a, b)
+            return e is True or (e is not False and I.must(e))
+        expected_api = []
+        for tag, coll in i["colls"]:
+            for e in coll.attrs["endpoints"].items:
+                mod = I.lib[utils.PythonIdentifier](I, [e.attrs["name"], prefix], {})
+                expected_api.append((tag, SStr(z3.Concat(I.to_str_term(mod), z3.StringVal(".py"))), e))
+        seen_api = []
+        for _, parts, content in tr:
+            rest = parts[len(pkg):] if parts[:len(pkg)] == pkg else ()
+            if len(rest) == 3 and rest[0] == "api" and rest[2] != "__init__.py":
+                info = by_text.get(id(content))
+                if info is None:
+                    return False               # the text written is not a rendering made in this run
+                tname, kw = info
+                if tname != "endpoint_module.py.jinja" or "endpoint" not in kw:
+                    return False
+                hits = [x for x in expected_api if same(x[0], rest[1]) and same(x[1], rest[2]) and x[2] is kw["endpoint"]]
+                if not hits:
+                    return False
+                seen_api.append(hits[0])
+            if len(rest) == 2 and rest[0] == "models" and rest[1] != "__init__.py":
+                info = by_text.get(id(content))
+                if info is None:
+                    return False
+                tname, kw = info
+                rec = kw.get("model", kw.get("enum"))
+                if rec is None or not any(rec is m for m in list(i["models"].items) + list(i["enums"].items)):
+                    return False
+                want = SStr(z3.Concat(I.to_str_term(rec.attrs["class_info"].attrs["module_name"]), z3.StringVal(".py")))
+                if not same(want, rest[1]):
+                    return False
+        # and every operation of every tag got its file
+        return all(any(x is y for y in seen_api) for x in expected_api)
+
     clauses = [
+        Clause("every-module-is-the-rendering-of-its-own-record", own_rendering,
+               statement="api/<tag>/<module>.py is written for every operation of every tag and holds the rendering of "
+                         "endpoint_module.py.jinja for exactly that operation (module names are unique within a tag only: two tags "
+                         "may hold operations with one module name); models/<module>.py holds the rendering for the model / enum "
+                         "with that module name", props=["C03", "C07", "C16", "C19", "C01"]),
         Clause("existing-directory-refused-without-effects", refuse,
                statement="project_dir exists and not overwrite => one error is returned and nothing is created, written or "
                          "removed", props=["C19", "C06"]),
@@ -183,7 +261,7 @@ def build_contract(meta_name):
                statement="every write has an allowed form under project_dir/package_dir; models/ and api/ are removed before "
                          "anything is created or written in them; nothing else is ever removed", props=["C19"]),
     ]
-    return FnContract(Q + ".build", [Case(f"meta={meta_name}", make, clauses, raises=(), props=["C19", "C06"])])
+    return FnContract(Q + ".build", [Case(f"meta={meta_name}", make, clauses, raises=(), props=["C19", "C06", "C03", "C07", "C16", "C01"])])
 
 
 # ---- Project.__init__: names, directories, version (C16 renaming options, C19 where the output goes) --------------------------
